@@ -681,6 +681,14 @@ fn gen_dual2(thorough: bool, r: &mut Rng, emit: Emit) {
         let late = i % 2 == 0;
         let (t1, t2) = match r.below(3) { 0 => (vary(r, &s1, 64, late), s2.clone()), 1 => (s1.clone(), vary(r, &s2, cap2, late)), _ => (vary(r, &s1, 64, late), vary(r, &s2, cap2, late)) };
         emit(&format!("dual2 {} {} {} {} {} {} {}", c, k, hexenc(&flat(&s1)), hexenc(&flat(&s2)), k, hexenc(&flat(&t1)), hexenc(&flat(&t2))));
+        // the same hash against its own normalisation (a dual hash without any reverse-normalisation
+        // data), in both operand orders, and against the normalisation of one block hash only
+        if i % 4 == 0 {
+            let (n1, n2) = (collapse(&flat(&s1)), collapse(&flat(&s2)));
+            emit(&format!("dual2 {} {} {} {} {} {} {}", c, k, hexenc(&n1), hexenc(&n2), k, hexenc(&flat(&s1)), hexenc(&flat(&s2))));
+            emit(&format!("dual2 {} {} {} {} {} {} {}", c, k, hexenc(&flat(&s1)), hexenc(&flat(&s2)), k, hexenc(&n1), hexenc(&n2)));
+            emit(&format!("dual2 {} {} {} {} {} {} {}", c, k, hexenc(&n1), hexenc(&flat(&s2)), k, hexenc(&flat(&s1)), hexenc(&n2)));
+        }
     }
 }
 
@@ -981,6 +989,24 @@ fn gen_cmp(thorough: bool, r: &mut Rng, emit: Emit) {
             _ => (short(r), edit(r, &a1, 32)),
         };
         emit(&format!("cmp {} {} {} {} {} {}", k1, hexenc(&a1), hexenc(&a2), k2, hexenc(&b1), hexenc(&b2)));
+    }
+    // block sizes differing by a factor of two: only the crossing pair (bh2 of the smaller / bh1 of the
+    // larger size) is compared; the block hashes that do NOT take part are empty, shorter than 7 or
+    // exactly 7, the participating ones exactly 7, 8 or long (round-8 seeded change: a length pre-filter
+    // looking at the wrong block hash)
+    for i in 0..(if thorough { 6000 } else { 600 }) {
+        let k = r.range(0, 29) as u8;
+        let lens = [0usize, 1, 6, 7, 8, 20, 32];
+        let part: Vec<u8> = { let l = *r.pick(&[7usize, 7, 8, 12, 32]); fixn((0..l + 2).map(|_| r.below(64) as u8).collect(), l) };
+        let other_part = match r.below(3) { 0 => part.clone(), 1 => fixn(mutate_bh(r, &part, 32), 32), _ => { let mut v = rand_norm_bh(r, 24); v.extend(&part); fixn(v, 32) } };
+        let idle = |r: &mut Rng| -> Vec<u8> { let l = *r.pick(&lens); fixn((0..l + 2).map(|_| r.below(64) as u8).collect(), l) };
+        let (a1, b2) = (idle(r), idle(r));
+        // a = (k, a1, part)   b = (k + 1, other_part, b2): a's block hash 2 meets b's block hash 1
+        if i % 2 == 0 {
+            emit(&format!("cmp {} {} {} {} {} {}", k, hexenc(&a1), hexenc(&part), k + 1, hexenc(&other_part), hexenc(&b2)));
+        } else {
+            emit(&format!("cmp {} {} {} {} {} {}", k + 1, hexenc(&other_part), hexenc(&b2), k, hexenc(&a1), hexenc(&part)));
+        }
     }
     // hashes that differ only by trailing symbols 0 ('A', the same byte as the padding of the arrays),
     // including empty block hashes: "equal" shortcuts must compare lengths too (round-5 seeded change C10)
